@@ -3,9 +3,11 @@
 import json, os
 HERE = os.path.dirname(os.path.dirname(os.path.abspath(__file__)))
 BASE_NOTE = ("Trusted: Coq 8.16.1 kernel incl. vm_compute (no native_compute); no axioms (every Print Assumptions must say "
-             "'Closed under the global context'); the hand-written Gallina model is tied to /repo by the correspondence run (K) on "
-             "every invocation and, for the integer kernels, by the generated layer (G); harness (generators, exact float->Z/Q "
-             "conversion, parser, comparator tolerances); numpy FFT/log/sqrt/lstsq are modelled by their mathematical meaning, not verified. ")
+             "'Closed under the global context'); the Gallina model is tied to /repo on every invocation by (G) definitions regenerated from the "
+             "current source text by five fail-closed translators (index arithmetic, float formulas as rationals, the numba kernels compiled to "
+             "folds, the vectorised gridmatching formulas, the full_match loop) with bridge lemmas re-proved against them, and by (K) the "
+             "correspondence run (model under vm_compute vs implementation on the same inputs); harness (generators, exact float->Z/Q "
+             "conversion, parser, comparator tolerances, translators); numpy FFT/log/sqrt/solve/lstsq are modelled by their mathematical meaning, not verified. ")
 CHECKS = {}
 def add(pid, text, note, technique, design_ref, category='proof'):
     CHECKS[pid] = dict(text=text, note=note, technique=technique, design_ref=design_ref, category=category)
@@ -114,10 +116,13 @@ add('C05',
     "Coq theorems over Q: a valid fast match has >= min_match selected peaks, all with elevation >= min_weight, one index per selected peak, and its lattice is "
     "the weighted least-squares fit (C06) of exactly those peaks; a peak on a lattice position is matched with its true indices for every tolerance > 0; a peak "
     "half a cell off is rejected for tolerance^2 <= |a|^2/(4 max(1,|i|)); parallel/zero start vectors give Invalid (a value, not an exception); matching decisions "
-    "are translation invariant. Tie: the complete two-round fastmatch in exact rationals vs Matcher.fastmatch on the same floats.",
+    "are translation invariant; the WHOLE fastmatch is covariant under every rational orthogonal map plus translation (rotations such as (3/5,4/5), reflections, axis swap: "
+    "same validity, selection and indices, mapped lattice); peaks below min_weight and NaN elevations have no influence on anything. Tie: _match_all's error/rounding/decision, "
+    "get_indices and the row weights of the lstsq systems regenerated from the source text (bridge lemmas), and the complete two-round fastmatch in exact rationals vs "
+    "Matcher.fastmatch on the same floats.",
     LAT_NOTE + "Robustness to 'about a pixel' of start error and 0.3 px noise is quantitative: sampled by the oracle, the theorems cover the exact-position and "
     "half-cell cases. For rank-deficient matched index sets lstsq returns a minimum-norm solution where the model has none: there only well-formedness is compared. "
-    "Rotation covariance is sampled (rational rotations are not proved).",
+    "Covariance under irrational rotations is sampled (rational orthogonal maps are proved).",
     "Coq proof (Q arithmetic, rounding lemmas, list induction) + exact-rational correspondence + oracle incl. adversarial stream", "5/C05")
 
 UDF_NOTE = ("LiberTEM itself is not installed: the real UDF classes of /repo run under harness/stubs/libertem, an explicit-schedule stand-in for the UDF protocol "
